@@ -23,7 +23,7 @@ package outlier
 // force are new maps with the same keys, holding exactly the entries whose outlier rule AND embedded breaker rule are
 // valid; nothing that existed before is written (the node breakers are rebuilt by updateAllBreakers, assumed)
 //@ func onRuleUpdate(rulesMap) err
-//@   props C13, C15
+//@   props C13
 //@   requires[holds-the-update-lock]{C15} wlockcount(updateRuleMux) > 0
 //@   ensures[raw-recorded] err == nil ==> currentRules == rulesMap
 //@   ensures[new-tables] err == nil ==> outlierRules != nil && fresh(outlierRules) && breakerRules != nil && fresh(breakerRules)
